@@ -95,9 +95,10 @@ func H264Classify(p []byte) (*H264Payload, error) {
 		}
 		return out, nil
 	case t == 28:
-		if len(p) < 3 {
-			return nil, fmt.Errorf("FU-A without payload")
+		if len(p) < 2 {
+			return nil, fmt.Errorf("FU-A without FU header")
 		}
+		// an FU payload MAY be empty (RFC 6184 5.8)
 		if p[1]&0x20 != 0 {
 			return nil, fmt.Errorf("FU-A reserved bit set")
 		}
